@@ -343,8 +343,9 @@ func (u rdUnit) String() string {
 type rdInst struct {
 	r   *wsutil.Reader
 	src *tx.Src
-	ms  *wsflate.MessageState
-	log *[]string
+	ms   *wsflate.MessageState
+	log  *[]string
+	base int // absolute stream offset of src's first byte
 }
 
 func newRd(cfg rdCfg, data []byte, base int) rdInst {
@@ -353,7 +354,7 @@ func newRd(cfg rdCfg, data []byte, base int) rdInst {
 	if cfg.Client {
 		st = ws.StateClientSide
 	}
-	in := rdInst{src: src, log: new([]string)}
+	in := rdInst{src: src, log: new([]string), base: base}
 	r := &wsutil.Reader{Source: src, State: st, CheckUTF8: cfg.CheckUTF8, SkipHeaderCheck: cfg.SkipCheck}
 	if cfg.Ext {
 		in.ms = new(wsflate.MessageState)
@@ -413,7 +414,9 @@ func errName(err error) string {
 	return "error: " + err.Error()
 }
 
-func (in rdInst) consume(m rdMode) rdUnit {
+// consume reads one top-level unit; end is the absolute offset at which the
+// unit ends on the wire.
+func (in rdInst) consume(m rdMode, end int) rdUnit {
 	var u rdUnit
 	*in.log = nil
 	if m.PreRead {
@@ -481,6 +484,13 @@ func (in rdInst) consume(m rdMode) rdUnit {
 		u.End = "discard:" + errName(err)
 		u.Stop = err != nil
 	}
+	if u.Stop && u.End == "invalid utf8" && in.base+in.src.Pos == end {
+		// A text message found invalid at its very end: everything of it has
+		// been consumed and the source stands at the next frame. The application
+		// goes on with NextFrame (a new message starts with a new decoder).
+		u.Stop = false
+		hx.Class("reader/invalid-utf8-at-message-end-then-next-frame")
+	}
 	if u.Stop && strings.Contains(u.End, errExt.Error()) {
 		// same for a receive extension failing inside Discard()
 		hx.Class("open/extension-error-inside-discard")
@@ -509,6 +519,32 @@ func TestReaderConsecutiveMessages(t *testing.T) {
 		cfg.FailPos, cfg.RejectPos = -1, -1
 		cfg.OnCont = rapid.Bool().Draw(t, "oncontinuation")
 		frames := gen.Conversation(t, "conv", gen.ConvOpts{Masked: !cfg.Client, MaxMsgs: 4, MaxPayload: 60})
+		if cfg.CheckUTF8 && rapid.Bool().Draw(t, "invalid-text") {
+			// One text message is invalid at its very end (a multi-byte sequence
+			// left open), often followed directly by a control frame with or
+			// without payload.
+			var texts []int
+			for _, e := range ref.Events(frames) {
+				if e.Kind == "msg" && e.Op == ref.OpText {
+					texts = append(texts, e.At)
+				}
+			}
+			if len(texts) > 0 {
+				at := rapid.SampledFrom(texts).Draw(t, "invalid-text.at")
+				open := rapid.SampledFrom([]string{"\xc3", "\xe2\x82", "\xf0\x9f\x98", "\xf0"}).Draw(t, "invalid-text.open")
+				frames[at].Payload = append(append([]byte(nil), frames[at].Payload...), open...)
+				if k := rapid.IntRange(0, 3).Draw(t, "invalid-text.ctl"); k > 0 {
+					var ctl ref.Frame
+					if k == 1 {
+						ctl = gen.CtlFrame(t, "invalid-text.ctlframe", !cfg.Client)
+					} else {
+						ctl = ref.Frame{H: ref.Header{Fin: true, Op: byte(ref.OpPing + k - 2), Masked: !cfg.Client, Mask: gen.Key(t, "invalid-text.key")}}
+					}
+					frames = append(frames[:at+1], append([]ref.Frame{ctl}, frames[at+1:]...)...)
+				}
+				hx.Class("reader/stream-with-text-invalid-at-its-end")
+			}
+		}
 		if cfg.Ext {
 			// mark some messages "compressed": RSV1 on their first frame
 			for i := range frames {
@@ -581,10 +617,15 @@ func TestReaderConsecutiveMessages(t *testing.T) {
 		var units []rdUnit
 		pos := []int{0}
 		for i := 0; i < nunits; i++ {
-			u := a.consume(modes[i])
+			u := a.consume(modes[i], unitEnd[i])
 			units = append(units, u)
 			if u.Stop {
 				break
+			}
+			if u.End == "invalid utf8" && i+1 < nunits {
+				// after the error the application goes on with NextFrame; a Read
+				// before it would just repeat the error of the finished message
+				modes[i+1].PreRead = false
 			}
 			if u.CbErr {
 				// the next message starts where this one ends on the wire
@@ -612,7 +653,7 @@ func TestReaderConsecutiveMessages(t *testing.T) {
 			b := newRd(cfg, wire[pos[k]:], pos[k])
 			boundaries++
 			for j := k; j < len(units); j++ {
-				ub := b.consume(modes[j])
+				ub := b.consume(modes[j], unitEnd[j])
 				if ub.String() != units[j].String() {
 					t.Fatalf("unit %d read by the reader that already consumed %d unit(s):\n  %s\nby a new reader positioned at byte %d:\n  %s\ncase: %s", j, k, units[j], pos[k], ub, hx.JSON(desc()))
 				}
